@@ -2,6 +2,8 @@ package main
 
 import (
 	"bufio"
+	"context"
+	"os/exec"
 	"encoding/json"
 	"flag"
 	"fmt"
@@ -185,6 +187,33 @@ func cmdCheck(args []string) int {
 	results := vc.Discharge(frs, cfg)
 	results = append(results, unattached...)
 
+	// bounded stand-ins (never counted as proved)
+	type boundedRes struct {
+		Pkg, Test, Desc, Verdict string
+		Seconds               float64
+		Output                string
+	}
+	var boundedResults []boundedRes
+	for _, p := range pkgs {
+		sf := env.Specs[p]
+		for _, bc := range sf.Bounded {
+			if !contains(bc.Props, prop) {
+				continue
+			}
+			rel := strings.TrimPrefix(strings.TrimPrefix(p, env.Module), "/")
+			t1 := time.Now()
+			ok, out := runOverlayTest(*repo, filepath.Join(*verif, "bounded", rel), rel, bc.Test, 300)
+			br := boundedRes{Pkg: rel, Test: bc.Test, Desc: bc.Desc, Seconds: round3(time.Since(t1).Seconds())}
+			if ok {
+				br.Verdict = "passed"
+			} else {
+				br.Verdict = "failed"
+				br.Output = out
+			}
+			boundedResults = append(boundedResults, br)
+		}
+	}
+
 	// expected floor
 	var exp map[string]expected
 	if b, err := os.ReadFile(filepath.Join(*verif, "expected_obligations.json")); err == nil {
@@ -291,6 +320,20 @@ func cmdCheck(args []string) int {
 		violLines = append(violLines, line)
 		exit = 1
 	}
+	for _, br := range boundedResults {
+		if br.Verdict == "passed" {
+			continue
+		}
+		path := filepath.Join(replayDir, sanitize("bounded_"+br.Pkg+"_"+br.Test)+".json")
+		rp := map[string]interface{}{"property": prop, "obligation": "bounded stand-in " + br.Test + " (package " + br.Pkg + ")", "kind": "bounded", "description": br.Desc,
+			"replay": "go test output of the stand-in on the real code", "output": br.Output}
+		b, _ := json.MarshalIndent(rp, "", " ")
+		os.WriteFile(path, b, 0o644)
+		line := fmt.Sprintf("VIOLATION property=%s replay=%s", prop, path)
+		fmt.Println(line)
+		violLines = append(violLines, line)
+		exit = 1
+	}
 	for _, k := range known {
 		if k.Property != prop {
 			continue
@@ -366,6 +409,7 @@ func cmdCheck(args []string) int {
 			"known_findings":           knownLines,
 			"violations":               violLines,
 			"machinery_errors":         machineryErrors,
+			"bounded":                  boundedResults,
 			"contract_sources":         specSrc,
 			"explanation":              "every obligation is a weakest-precondition style verification condition generated from the go/ssa form of the current /repo working tree and the //@ contracts; discharged = solver answered unsat for the negated obligation",
 		},
@@ -426,4 +470,46 @@ func round3(f float64) float64 { return float64(int(f*1000+0.5)) / 1000 }
 // tryReplay attempts to confirm a counterexample on the real code through a replay driver.
 func tryReplay(verif, repo, prop string, r *vc.ObResult, rp map[string]interface{}) bool {
 	return replayModel(verif, repo, prop, r, rp)
+}
+
+
+// runOverlayTest injects the test files of dir into package rel of the repository with -overlay and runs one test.
+func runOverlayTest(repo, dir, rel, test string, timeoutSec int) (bool, string) {
+	files, _ := filepath.Glob(filepath.Join(dir, "*_test.go"))
+	if len(files) == 0 {
+		return false, "no bounded test files in " + dir
+	}
+	repl := map[string]string{}
+	for _, f := range files {
+		repl[filepath.Join(repo, rel, filepath.Base(f))] = f
+	}
+	ov, _ := json.Marshal(map[string]interface{}{"Replace": repl})
+	tmp, err := os.CreateTemp("", "dvc-overlay-*.json")
+	if err != nil {
+		return false, err.Error()
+	}
+	defer os.Remove(tmp.Name())
+	tmp.Write(ov)
+	tmp.Close()
+	pkg := "./" + rel
+	if rel == "" {
+		pkg = "."
+	}
+	ctx, cancel := context.WithTimeout(context.Background(), time.Duration(timeoutSec+30)*time.Second)
+	defer cancel()
+	cmd := exec.CommandContext(ctx, "go", "test", "-overlay="+tmp.Name(), "-vet=off", "-count=1", fmt.Sprintf("-timeout=%ds", timeoutSec), "-run", "^"+test+"$", pkg)
+	cmd.Dir = repo
+	cmd.Env = append(os.Environ(), "GOFLAGS=-mod=mod", "GOPROXY=off", "GOSUMDB=off", "GOTOOLCHAIN=local")
+	out, err := cmd.CombinedOutput()
+	s := string(out)
+	if len(s) > 6000 {
+		s = s[:6000] + "..."
+	}
+	if err != nil {
+		return false, s
+	}
+	if !strings.Contains(s, "ok") || strings.Contains(s, "no tests to run") {
+		return false, "test did not run: " + s
+	}
+	return true, s
 }
